@@ -178,7 +178,7 @@ func (g *Generator) generateStructSchemaWithRefs(t reflect.Type) *openapi3.Schem
 		}
 
 		jsonName := getJSONFieldName(field)
-		if jsonName == "" || jsonName == "-" {
+		if jsonName == "" {
 			continue
 		}
 
@@ -511,7 +511,7 @@ func convertStructToSchemaWithDepthLimit(t reflect.Type, visited map[reflect.Typ
 		}
 
 		jsonName := getJSONFieldName(field)
-		if jsonName == "" || jsonName == "-" {
+		if jsonName == "" {
 			continue
 		}
 
@@ -632,7 +632,7 @@ func convertStructToSchemaWithVisited(t reflect.Type, visited map[reflect.Type]*
 
 		// Get JSON field name
 		jsonName := getJSONFieldName(field)
-		if jsonName == "" || jsonName == "-" {
+		if jsonName == "" {
 			continue // Skip fields without JSON tags or explicitly ignored
 		}
 
@@ -696,11 +696,16 @@ func convertMapToSchemaWithVisited(t reflect.Type, visited map[reflect.Type]*ope
 	return schema
 }
 
-// getJSONFieldName extracts the JSON field name from struct field
+// getJSONFieldName extracts the JSON field name from struct field.
+// It returns "" for a field that encoding/json skips (`json:"-"`); the tag `json:"-,"` does not
+// skip the field but names it "-".
 func getJSONFieldName(field reflect.StructField) string {
 	jsonTag := field.Tag.Get("json")
 	if jsonTag == "" {
 		return field.Name
+	}
+	if jsonTag == "-" {
+		return ""
 	}
 
 	// Parse json tag (handle omitempty, etc.)
